@@ -137,7 +137,7 @@ type frame struct {
 	specPos  token.Pos
 	ghosts   map[string]binding
 	stmtKey  map[ast.Stmt]string // text key of every statement (for `at stmt[text]:` hints, robust to inserted statements)
-	stmtOrd  map[ast.Stmt]int // source-order ordinal of every statement of the function (for `at stmtN:` hints)
+	stmtOrd  map[ast.Stmt]int    // source-order ordinal of every statement of the function (for `at stmtN:` hints)
 }
 
 type binding struct {
@@ -180,11 +180,13 @@ type VC struct {
 	heapDef       map[string]heapStore // structure of named heaps (single-cell stores, fresh arrays)
 	freshRefs     map[string]bool      // identities returned by allocRef (pairwise distinct)
 	oldVals       map[string]bool      // slice-valued parameters (their arrays were allocated before the call)
+	maxDeg        int                  // contract clause `maxdegree N` (real mode): see degOf
+	deg           map[string]int       // degree (number of input-derived factors) of float terms built so far
 	splitJoins    bool                 // contract clause `nomerge`: branches of if/switch are not joined until the end of the enclosing block
 	pendingOuts   []*State
 	blockOuts     []*State
-	Assumed       []string             // `ensures [assumed-...]` clauses met while verifying (assumptions, not obligations)
-	hintName      string               // display name for the obligations of the hint being applied
+	Assumed       []string            // `ensures [assumed-...]` clauses met while verifying (assumptions, not obligations)
+	hintName      string              // display name for the obligations of the hint being applied
 	hintsSeen     map[string]bool     // `at <label>:` hints of the verified function that were reached
 	paramSlices   []paramSlice        // the same, with their element heap (frame facts are instantiated for them)
 	subFuncs      []string            // embedded-struct identity functions declared so far
@@ -305,6 +307,9 @@ func (vc *VC) define(prefix string, t Term) Term {
 		vc.defs = map[string]Term{}
 	}
 	vc.defs[c.S] = t
+	if d, ok := vc.deg[t.S]; ok {
+		vc.deg[c.S] = d
+	}
 	return c
 }
 
